@@ -111,6 +111,9 @@ func cmdFn(args []string) int {
 			if o.Status == "failed" || o.Status == "unknown" || o.Status == "error" || o.Status == "vacuous" {
 				rc = 1
 				fmt.Println("    goal:", o.Src)
+				if o.Status == "failed" {
+					fmt.Println("   ", strings.Join(modelSummary(o.Model), "\n    "))
+				}
 				if o.Status != "failed" {
 					fmt.Println("   ", strings.ReplaceAll(trunc(o.Output, 600), "\n", "\n    "))
 				}
@@ -164,4 +167,22 @@ func main() {
 	}
 }
 
-func cmdCheck(args []string) int { fmt.Println("not yet"); return 2 }
+
+// modelSummary extracts the parameter and result constants from a solver model.
+func modelSummary(model string) []string {
+	var out []string
+	lines := strings.Split(model, "\n")
+	for i := 0; i < len(lines); i++ {
+		l := strings.TrimSpace(lines[i])
+		if strings.HasPrefix(l, "(define-fun p_") || strings.HasPrefix(l, "(define-fun fv") || strings.HasPrefix(l, "(define-fun cglob") {
+			v := ""
+			if i+1 < len(lines) {
+				v = strings.TrimSpace(lines[i+1])
+			}
+			name := strings.Fields(l)[1]
+			out = append(out, name+" = "+strings.TrimSuffix(v, ")"))
+		}
+	}
+	sort.Strings(out)
+	return out
+}
